@@ -28,7 +28,10 @@ MANIFEST = {
                 "proved, for every object and both waitpid outcomes, to change the '0 = closed' flags and return as Proc.step says, to store "
                 "WEXITSTATUS, and to make exactly the system calls of Kernel.joinProgram in its order (close stdin end, waitpid, close read "
                 "ends) - the action list of join_returns_exit_code_in_pipe_model is thereby derived from the current body; Process::exit passes "
-                "its argument to _exit; setEnvironmentVariable = the model's function (POSIX setenv/unsetenv as primitives).  A change of these C++ bodies changes the generated Lean "
+                "its argument to _exit; setEnvironmentVariable = the model's function (POSIX setenv/unsetenv as primitives); the 3-argument "
+                "read (PropsSel.lean): fd_set handling, maxFd, the select loop with its continues, the FD_ISSET order and ::read translated and "
+                "proved equal to ReadSel.read3 for every object, request, length and select oracle, so the PropsRead theorems hold for the "
+                "current body (never a blocking ::read, -1 only as EINVAL, stdout first, ...).  A change of these C++ bodies changes the generated Lean "
                 "definitions and the equality proofs fail; a construct outside the translated subset is refused (broken tie).  "
                 "PROVED about the model of the code, for all inputs: option tables x argument vectors (result sequence = getopt "
                 "conventions, no read outside the argument strings / option names, termination); command lines (tokenizer refinement, "
@@ -63,7 +66,7 @@ MANIFEST = {
                 "System calls of the translated Process-object functions: ::close / ::kill append to a trace, `waitpid(pid, &status, 0) != "
                 "(pid_t)pid` is one oracle-answered condition (waitpid returns the requested pid or -1), CSemProc.lean.  "
                 "Everything of Process.cpp OTHER than nextChar / read / the Arguments constructor / splitCommandLine / Process(), ~Process, "
-                "isRunning, kill, join, close, exit, the 2-argument read, write, setEnvironmentVariable (i.e. start, open, the 3-argument read, wait, interrupt, daemonize, environment) is still a HAND translation into the model, validated by the "
+                "isRunning, kill, join, close, exit, the 2- and 3-argument read, write, setEnvironmentVariable (i.e. start, open, wait, interrupt, daemonize, getEnvironmentVariable(s), prepareEnv) is still a HAND translation into the model, validated by the "
                 "correspondence run, not proved.  A harmless restructuring of a translated body breaks the equality proof (reported as "
                 "'proof obligations / model tie no longer check' without failing input).  Checked-memory abstraction (one block per argv word / option name, the option table holds "
                 "null or NUL-free terminated names); Map iteration = ascending key order (C01).  'getopt rules' means the "
@@ -1036,7 +1039,9 @@ ASSUMPTIONS = [
     "tie by translation (tools/gen_args.py -> Nstd/Generated/ArgsCode.lean, proved equal to the model in PropsCode.lean): the semantics given to "
     "the translated C++ subset (CSem.lean: checked blocks, null | (block, offset) pointers, char** / const Option* as indices, operands "
     "evaluated left to right, short-circuit operators and ?: as control flow, loops over fuel, char compared as bytes, int <- char sign-extends); "
-    "String::length/find/compare/attach/append/clear/isEmpty and List::append are hand-modelled primitives; argv bytes < 256",
+    "String::length/find/compare/attach/append/clear/isEmpty and List::append are hand-modelled primitives; argv bytes < 256; system calls of "
+    "the translated Process functions: close/kill/_exit/read/write append to a trace, waitpid / select / ::read on a pipe are answered by an oracle "
+    "resp. the assumed kernel of ReadSel.lean (CSemProc.lean, CSemSel.lean); setenv/unsetenv as POSIX documents",
     "memory model of the Lean model: every argv word and every option name is a separate block holding the bytes and the terminator; reads are checked against its extent",
     "the option table is an array of valid entries (names are null or C strings)",
     "Map<String,String> iterates in ascending key order (property C01)",
